@@ -498,6 +498,13 @@ V("element-iv-triggers-neutral-loop", "neutral", ["C08", "C01"], P + "element_iv
   "    return np.full(n, dtype=np.uint8, fill_value=EVENT_MASK_MIN_MAX)", "    triggers = np.zeros(n, dtype=np.uint8)\n    for i in range(n):\n        triggers[i] = EVENT_MASK_MIN_MAX\n    return triggers",
   "full mask built with a loop")
 
+V("lex-strict-entail-leq", "break", ["C07", "C01"], P + "lexicographic_leq_propagator.py", None, None,
+  "strict sub-case declares entailment with <= (x_q == y_q still possible)", "compute_domains_4", within="def compute_domains_4",
+  edits=[{"old": "return PROP_ENTAILMENT if x[q, MAX] < y[q, MIN] else PROP_CONSISTENCY", "new": "return PROP_ENTAILMENT if x[q, MAX] <= y[q, MIN] else PROP_CONSISTENCY"}])
+V("lex-nonstrict-entail-lt-neutral", "neutral", ["C07", "C01"], P + "lexicographic_leq_propagator.py", None, None,
+  "non-strict sub-case declares entailment only under < (later than necessary, never wrong)", within="def compute_domains_3",
+  edits=[{"old": "return PROP_ENTAILMENT if x[q, MAX] <= y[q, MIN] else PROP_CONSISTENCY", "new": "return PROP_ENTAILMENT if x[q, MAX] < y[q, MIN] else PROP_CONSISTENCY"}])
+
 # --------------------------------------------------------------------------------------------- index extents
 V("element-iv-no-clamp-low", "break", ["C16"], P + "element_iv_propagator.py", "    i[MIN] = max(i[MIN], 0)\n", "", "index variable not clamped to the table from below", "compute_domains_element_iv")
 V("element-iv-clamp-len", "break", ["C16"], P + "element_iv_propagator.py", "    i[MAX] = min(i[MAX], len(l) - 1)\n", "    i[MAX] = min(i[MAX], len(l))\n", "index variable clamped one past the table", "compute_domains_element_iv")
